@@ -66,7 +66,9 @@ func c17(c *Ctx) {
 				xs = append(xs, mk(i))
 			}
 			carriers := []*D{h.SliceAny(xs...)}
-			if n > 0 {
+			if n > 0 && kind == "nulls" {
+				carriers = append(carriers, &D{Tag: "ar", Ety: "any", Xs: xs}) // null elements live in interface slots only
+			} else if n > 0 {
 				carriers = append(carriers, h.TypedSlice(xs...), &D{Tag: "ar", Ety: h.TypedSlice(xs...).Ety, Xs: xs})
 			}
 			for ci, arr := range carriers {
